@@ -74,6 +74,7 @@ type Exec struct {
 	propsOf []string
 	pendingEnv0 *SpecEnv
 	callCells   map[string]*Cell // ghost counters: calls("pattern")
+	ifaceVals   map[*Term]Val    // interface id -> boxed value (Go side)
 	havocEpoch  int
 }
 
